@@ -321,6 +321,123 @@ theorem read_group_stable_cases (rg : ReadGroupOpt) (samples : List Sample) (s :
 
 example : effectiveReadGroup .unset [sampleA, sampleN] = effectiveReadGroup .unset [sampleN] := by decide
 
+/-! ### 5b. Parsing the experiment description: every experiment gets the fields of its own entry -/
+
+/-- **parsed_sample_depends_on_own_entry** (YAML): when the experiments carry explicit, pairwise distinct names
+    (reading rule c), `get_samples_from_yaml` returns – for *every* list of entries, with or without the optional
+    keys, in every order – exactly the concatenation of what each entry yields by itself (`parseOwnYaml e n` is a
+    function of that one entry), and fails iff some entry fails by itself.  None of the loop locals
+    (`experiment_names`, `current_index`, `readable_names_dict`, the per-entry lists) carries anything over. -/
+theorem parsed_sample_depends_on_own_entry (pfx : String) (entries : List YamlEntry) (ns : List String)
+    (hnames : entries.map YamlEntry.name = ns.map some) (hnd : ns.Nodup) :
+    parseYaml pfx entries = parseEachOwn (entries.zip ns) := by
+  have h := yamlLoop_own pfx entries ns ParseSt.init [] []
+    ⟨rfl, by simp [ParseSt.init], by simp [ParseSt.init, hasKey], by simp [ParseSt.init]⟩ hnames hnd (by simp)
+  unfold parseYaml
+  rw [h]
+  cases parseEachOwn (entries.zip ns) <;> simp
+
+/-- … in the form of the property: the joint description parses to the concatenation of the stand-alone
+    (one-entry) descriptions, whatever the prefix of either invocation -/
+theorem parse_joint_eq_standalone (pfx pfx' : String) (entries : List YamlEntry) (ns : List String)
+    (hnames : entries.map YamlEntry.name = ns.map some) (hnd : ns.Nodup) :
+    parseYaml pfx entries = parseEachOwn (entries.zip ns)
+    ∧ ∀ (e : YamlEntry) (n : String), (e, n) ∈ entries.zip ns → e.name = some n →
+        parseYaml pfx' [e] = (parseOwnYaml e n).map Option.toList := by
+  refine ⟨parsed_sample_depends_on_own_entry pfx entries ns hnames hnd, ?_⟩
+  intro e n _ hn
+  have := parsed_sample_depends_on_own_entry pfx' [e] [n] (by simp [hn]) (by simp)
+  rw [this]
+  simp only [List.zip_cons_cons, List.zip_nil_right, parseEachOwn]
+  cases parseOwnYaml e n <;> simp
+
+/-- the short-read BAMs of a parsed experiment are those of the entry with its name -/
+theorem parsed_illumina_is_own (l : List (YamlEntry × String)) (rs : List ParsedSample)
+    (h : parseEachOwn l = some rs) :
+    ∀ s ∈ rs, ∃ p ∈ l, s.name = p.2 ∧ s.illumina = p.1.illumina := by
+  induction l generalizing rs with
+  | nil =>
+    simp only [parseEachOwn, Option.some.injEq] at h
+    subst h
+    simp
+  | cons p l ih =>
+    obtain ⟨e, n⟩ := p
+    simp only [parseEachOwn] at h
+    cases hp : parseOwnYaml e n with
+    | none => simp [hp] at h
+    | some r =>
+      cases hr : parseEachOwn l with
+      | none => simp [hp, hr] at h
+      | some rs' =>
+        simp only [hp, hr, Option.some.injEq] at h
+        subst h
+        intro s hs
+        rcases List.mem_append.mp hs with h1 | h1
+        · refine ⟨(e, n), List.mem_cons_self, ?_⟩
+          unfold parseOwnYaml at hp
+          cases hf : e.files with
+          | none => simp [hf] at hp
+          | some fs =>
+            cases hl : labelled fs e.labels with
+            | none => simp [hf, hl] at hp
+            | some pairs =>
+              cases ha : addFiles [] pairs with
+              | none => simp [hf, hl, ha] at hp
+              | some d =>
+                simp only [hf, hl, ha] at hp
+                split at hp
+                · simp only [Option.some.injEq] at hp; subst hp; simp at h1
+                · simp only [Option.some.injEq] at hp; subst hp
+                  simp only [Option.toList, List.mem_singleton] at h1
+                  subst h1
+                  exact ⟨rfl, rfl⟩
+        · obtain ⟨q, hq, hh⟩ := ih rs' hr s h1
+          exact ⟨q, List.mem_cons_of_mem _ hq, hh⟩
+
+/-- the same for list files (`get_samples_from_file`, a line-by-line loop with a pending sample): a description made
+    of `#name` headers (explicit, pairwise distinct names) each followed by its file lines parses to the
+    concatenation of what each block yields by itself (`ownBlock n lines`: a function of that block alone) -/
+theorem parsed_list_sample_depends_on_own_entry (pfx : String) (blocks : List (String × List ListLine))
+    (hne : ∀ b ∈ blocks, b.1.isEmpty = false ∧ ∀ l ∈ b.2, l.isFiles = true)
+    (hnd : (blocks.map Prod.fst).Nodup) :
+    parseList pfx (renderBlocks blocks) = parseEachOwnBlock blocks := by
+  have hI : ListInv ⟨ParseSt.init, [], pfx⟩ [] [] :=
+    ⟨by simp [ListSt.flush, finishParse, ParseSt.init], by simp [ListSt.flush, ParseSt.init],
+     by simp [ParseSt.init, hasKey], by simp [ListSt.flush, ParseSt.init]⟩
+  have h := listLoop_blocks pfx blocks ⟨ParseSt.init, [], pfx⟩ [] [] hI hne hnd (by simp)
+  unfold parseList
+  rw [h]
+  cases parseEachOwnBlock blocks <;> simp
+
+/-- … and a block alone (the stand-alone list file, under any prefix) yields exactly that -/
+theorem parse_list_standalone (pfx' : String) (n : String) (lines : List ListLine)
+    (hne : n.isEmpty = false) (hl : ∀ l ∈ lines, l.isFiles = true) :
+    parseList pfx' (renderBlocks [(n, lines)]) = (ownBlock n lines).map Option.toList := by
+  rw [parsed_list_sample_depends_on_own_entry pfx' [(n, lines)]
+    (by intro b hb; simp only [List.mem_singleton] at hb; subst hb; exact ⟨hne, hl⟩) (by simp)]
+  simp only [parseEachOwnBlock]
+  cases ownBlock n lines <;> simp
+
+example : parseList "X" (renderBlocks [("A", [.files [⟨"/d/a.bam", "a"⟩] none]), ("E", []), ("B", [.files [⟨"/d/c.bam", "c"⟩, ⟨"/d/d.bam", "d"⟩] (some "pair")])])
+    = some [⟨"A", [["/d/a.bam"]], [("/d/a.bam", "a")], none⟩,
+            ⟨"B", [["/d/c.bam", "/d/d.bam"]], [("/d/c.bam", "pair"), ("/d/d.bam", "pair")], none⟩] := by decide
+
+/-- non-vacuity: an experiment with short reads and labels, one without either, one without files (skipped) -/
+example : parseYaml "X" [⟨some "E1", some [⟨"/d/a.bam", "a"⟩, ⟨"/d/b.bam", "b"⟩], some ["L1", "L2"], some ["/d/s.bam"]⟩,
+                         ⟨some "E0", some [], none, none⟩,
+                         ⟨some "E2", some [⟨"/d/c.bam", "c"⟩], none, none⟩]
+    = some [⟨"E1", [["/d/a.bam"], ["/d/b.bam"]], [("/d/a.bam", "L1"), ("/d/b.bam", "L2")], some ["/d/s.bam"]⟩,
+            ⟨"E2", [["/d/c.bam"]], [("/d/c.bam", "c")], none⟩] := by decide
+
+/-- without distinct names the locals do leak (renaming by position): the hypothesis is needed -/
+example : (parseYaml "X" [⟨some "E", some [⟨"/d/a.bam", "a"⟩], none, none⟩, ⟨some "E", some [⟨"/d/c.bam", "c"⟩], none, none⟩]).map
+    (fun l => l.map ParsedSample.name) = some ["E", "X1"] := by decide
+
+example : parseList "X" [.header "A", .files [⟨"/d/a.bam", "a"⟩] none, .files [⟨"/d/b.bam", "b"⟩] (some "lab"),
+                         .header "", .header "B", .files [⟨"/d/c.bam", "c"⟩] none]
+    = some [⟨"A", [["/d/a.bam"], ["/d/b.bam"]], [("/d/a.bam", "a"), ("/d/b.bam", "lab")], none⟩,
+            ⟨"B", [["/d/c.bam"]], [("/d/c.bam", "c")], none⟩] := by decide
+
 /-! ### 6. combined_* tables -/
 
 /-- **combined_columns**: the combined table has the header `#feature_id` + the experiment names; its feature
